@@ -536,6 +536,35 @@ pub fn gen_record(r: &mut Rng, fields: &[Value], cfg: &ValCfg) -> Value {
                 es.push((sval::int("i32", 3), sval::int("i32", 1)));
             }
             r.shuffle(&mut es);
+            if !cfg.strict && r.chance(1, 8) {
+                // inconsistent call streams on a struct position: value without key (also right after a complete
+                // entry, also as the very last call), key without value, two keys in a row
+                let mut ops = Vec::new();
+                for (k, v) in es {
+                    match r.below(8) {
+                        0 => ops.push(json!({"val": v})),
+                        1 => ops.push(json!({"key": k})),
+                        2 => {
+                            ops.push(json!({"key": k}));
+                            ops.push(json!({"val": v.clone()}));
+                            ops.push(json!({"val": v}));
+                        }
+                        3 => {
+                            ops.push(json!({"key": k.clone()}));
+                            ops.push(json!({"key": k}));
+                            ops.push(json!({"val": v}));
+                        }
+                        _ => {
+                            ops.push(json!({"key": k}));
+                            ops.push(json!({"val": v}));
+                        }
+                    }
+                }
+                if r.bool() {
+                    ops.push(json!({"val": sval::int("i32", 1)}));
+                }
+                return json!({"k": "map_raw", "ops": ops});
+            }
             sval::map(es)
         }
         _ => {
